@@ -153,6 +153,9 @@ def run_kani(dest, harness, timeout=900):
     dt = time.time() - t0
     m = re.search(r"VERIFICATION:- (\w+)", out)
     status = m.group(1) if m else "ERROR"
+    # a crash of the tool chain (CBMC abort, compiler error) is not a verdict about the code
+    if status == "FAILED" and ("CBMC failed with status" in out or "invariant violation report" in out or not re.search(r"- Status: FAILURE", out)):
+        status = "ERROR"
     checks = None
     mm = re.search(r"\*\* (\d+) of (\d+) failed", out)
     if mm:
@@ -182,8 +185,25 @@ def setup(log):
     return 0 if r["status"] == "SUCCESSFUL" else 2
 
 
-def run(names, tier, log):
-    dest = os.path.join(BUILD, "kani")
+def _locked(fn):
+    """cargo kani invocations share one target directory; concurrent checks are serialised on a lock file"""
+    import fcntl
+    os.makedirs(BUILD, exist_ok=True)
+    with open(os.path.join(BUILD, "kani.lock"), "w") as lk:
+        fcntl.flock(lk, fcntl.LOCK_EX)
+        try:
+            return fn()
+        finally:
+            fcntl.flock(lk, fcntl.LOCK_UN)
+
+
+def run(names, tier, log, pid="all"):
+    return _locked(lambda: _run(names, tier, log, pid))
+
+
+def _run(names, tier, log, pid="all"):
+    # one harness crate per property, so that checks running side by side do not rewrite each other's sources
+    dest = os.path.join(BUILD, "kani-" + pid)
     try:
         generate(dest)
     except Exception as e:
